@@ -37,9 +37,9 @@ const (
 	witOSVPanic = "CVSS:3/AV:N/AC:L/PR:N/UI:N/S:U/C:H/I:H/A:H"
 	// fromCVSS3 accepts more than vectors (listed finding): a metric twice
 	// (the last one wins, so the order of the pieces matters), no base metric
-	kOsvLax     = "osv-accepts-non-vectors"
-	witOsvDupA  = "CVSS:3.1/AV:P/AC:L/PR:N/UI:N/S:U/C:H/I:H/A:H/AV:N"
-	witOsvDupB  = "CVSS:3.1/AV:N/AC:L/PR:N/UI:N/S:U/C:H/I:H/A:H/AV:P"
+	kOsvLax      = "osv-accepts-non-vectors"
+	witOsvDupA   = "CVSS:3.1/AV:P/AC:L/PR:N/UI:N/S:U/C:H/I:H/A:H/AV:N"
+	witOsvDupB   = "CVSS:3.1/AV:N/AC:L/PR:N/UI:N/S:U/C:H/I:H/A:H/AV:P"
 	witOsvNoBase = "CVSS:3.1/E:X/RL:X/RC:X/CR:X/IR:X/AR:X/MAV:X/MAC:X"
 )
 
